@@ -1797,6 +1797,37 @@ fn check_case(c: &mut Case, input: &Input) {
         Ok(Ok(b)) => b,
     };
     c.count("bytes_serialised", x0.len() as u64);
+    // ---- the same tile saved to disk: into a fresh path, and over an existing, longer file (a tile saved again after it
+    // was edited down): the file holds exactly the serialised tile
+    if let Some(dir) = SCRATCH.get() {
+        let path = dir.join(format!("c14-{}-tile.adt", std::process::id()));
+        for prior in ["fresh-path", "over-a-longer-file", "over-a-shorter-file"] {
+            let _ = std::fs::remove_file(&path);
+            match prior {
+                "over-a-longer-file" => {
+                    let mut old = x0.clone();
+                    old.extend(std::iter::repeat_n(0xEEu8, 2949));
+                    let _ = std::fs::write(&path, old);
+                }
+                "over-a-shorter-file" => {
+                    let _ = std::fs::write(&path, &x0[..x0.len() / 2]);
+                }
+                _ => {}
+            }
+            c.count(&format!("files_written|{prior}"), 1);
+            match trap(|| built.write_to_file(&path)) {
+                Err(p) => c.violate(format!("write-to-file-panic|{}|{ver}", p.sig()), format!("write_to_file panicked: {}", p.msg), json!({"prior": prior})),
+                Ok(Err(e)) => c.violate(format!("write-to-file-failed|{prior}|{ver}"), format!("write_to_file failed on a tile to_bytes serialises: {e}"), json!({"prior": prior})),
+                Ok(Ok(())) => match std::fs::read(&path) {
+                    Ok(on_disk) if on_disk == x0 => c.count("files_equal_to_serialised_tile", 1),
+                    Ok(on_disk) => c.violate(format!("file-ne-serialised-tile|{prior}|{}", if on_disk.len() > x0.len() { "longer" } else if on_disk.len() < x0.len() { "shorter" } else { "same-length" }),
+                                            format!("write_to_file ({prior}) left {} bytes on disk, the tile serialises to {} bytes (first difference at {})", on_disk.len(), x0.len(), vh_common::first_diff(&on_disk, &x0)), json!({"prior": prior, "version": format!("{ver}")})),
+                    Err(e) => c.violate(format!("write-to-file-failed|{prior}|{ver}"), format!("the written file cannot be read back: {e}"), json!({})),
+                },
+            }
+        }
+        let _ = std::fs::remove_file(&path);
+    }
     // ---- (c) walker on the first file
     let w0 = walk_file(&x0);
     report_walk(c, &w0, ver, "build");
@@ -1903,10 +1934,13 @@ fn check_case(c: &mut Case, input: &Input) {
     }
 }
 
+static SCRATCH: std::sync::OnceLock<std::path::PathBuf> = std::sync::OnceLock::new();
+
 fn main() {
     let mut run = Run::new();
     let thorough = run.args.thorough();
     let seed = run.args.seed;
+    let _ = SCRATCH.set(std::path::PathBuf::from(&run.args.scratch));
     // deterministic case table: covering array over the tile-level axes + random points + explicit invalid inputs
     let mut crng = Rng::new(seed ^ 0xC14);
     let sub_rows = covering_array(&vec![2usize; SUBS.len()], if thorough { 3 } else { 2 }, &mut crng);
